@@ -22,8 +22,10 @@ RULE = (
     "odd/non-ASCII names, CRLF text). Rules (<= 12 per history): stage+transfer (shallow or not), "
     "build without transfer (stage_only), rewrite of a pool file with another pool file's content under a "
     "harness clock step (equal contents at several paths; hard-linked files are replaced, not written through), "
-    "build(upload=True)+transfer, direct add under the id an honest caller computes (optionally hard-linked), "
-    "store->store transfer of a drawn id subset (shallow/expanded, hardlink), index build->md5->save of a "
+    "build(upload=True)+transfer, direct add under the id an honest caller computes (optionally hard-linked, optionally in overwrite mode "
+    "check_exists=False aimed at objects already present), "
+    "store->store transfer of a drawn id subset (shallow/expanded, hardlink; optionally raced: a second handle "
+    "delivers part of the to-be-sent objects between the status query and the upload), index build->md5->save of a "
     "wrapped tree (one .dir object per directory level) either into an explicit store or through the index's "
     "storage map (md5 cache at the root key, the legacy store registered as cache at 0-2 drawn file/directory keys, "
     "entries hashed under the algorithm of the cache their key resolves to; every file entry's object must then be "
@@ -272,23 +274,42 @@ class C01Machine(TraceMachine):
             transfer(staging, odb, {obj.hash_info}, shallow=False, hardlink=False)
         self.labels.add("stage_upload" + ("-all" if item < 0 else ""))
 
-    @rule(store=st.integers(0, 2), fidx=st.integers(0, 40), hardlink=st.booleans())
+    @rule(store=st.integers(0, 2), fidx=st.integers(0, 40), hardlink=st.booleans(),
+          check_exists=st.sampled_from([True, True, False]))
     @traced
-    def add_direct(self, store, fidx, hardlink):
+    def add_direct(self, store, fidx, hardlink, check_exists=True):
+        """Direct add under the honest id.  check_exists=False is the overwrite mode hashfile.transfer uses; it is
+        aimed at objects the store already holds (whose inode is not shared with another store or a pool file: the
+        third-party reflink probe truncates the destination in place before giving up)."""
         from dvc_objects.fs.local import LocalFileSystem
 
         if not self.files:
             return
         odb = self.odbs[store]
-        path, data = self.files[fidx % len(self.files)][:2]
-        oid = _href(data, STORES[store][2])  # what an honest caller computes from that same path
-        odb.add(path, LocalFileSystem(), oid, hardlink=hardlink)
-        self.labels.add("add_direct" + ("-hardlink" if hardlink else ""))
+        algo = STORES[store][2]
+        cands = self.files
+        if not check_exists:
+            present = [f for f in self.files if _href(f[1], algo) in self.ids[store]]
+            cands = present or self.files
+        path, data = cands[fidx % len(cands)][:2]
+        oid = _href(data, algo)  # what an honest caller computes from that same path
+        over = False
+        if not check_exists and os.path.exists(odb.oid_to_path(oid)):
+            if os.stat(odb.oid_to_path(oid)).st_nlink > 1:
+                check_exists = True  # precondition of the overwrite arm, see docstring
+            else:
+                over = True
+        odb.add(path, LocalFileSystem(), oid, hardlink=hardlink, check_exists=check_exists)
+        self.labels.add("add_direct" + ("-hardlink" if hardlink else "") + ("-overwrite-present" if over else ""))
 
     @rule(src=st.integers(0, 1), picks=st.lists(st.integers(0, 40), min_size=1, max_size=4),
-          shallow=st.booleans(), hardlink=st.booleans())
+          shallow=st.booleans(), hardlink=st.booleans(),
+          deliver=st.one_of(st.just([]), st.lists(st.integers(0, 40), min_size=1, max_size=3)))
     @traced
-    def xfer(self, src, picks, shallow, hardlink):
+    def xfer(self, src, picks, shallow, hardlink, deliver=()):
+        """Store -> store transfer.  With `deliver`, a second delivery of overlapping content wins the race: between
+        this transfer's status query and its upload (validate_status hook) a drawn subset of the to-be-sent objects
+        is added to the destination through a second handle, so the upload meets them in overwrite mode."""
         from dvc_data.hashfile.hash_info import HashInfo
         from dvc_data.hashfile.transfer import transfer
 
@@ -296,7 +317,19 @@ class C01Machine(TraceMachine):
         if not have:
             return
         want = {HashInfo("md5", have[i % len(have)]) for i in picks}
-        res = transfer(self.odbs[src], self.odbs[1 - src], want, shallow=shallow, hardlink=hardlink)
+        sodb, dodb = self.odbs[src], self.odbs[1 - src]
+
+        def hook(status):
+            new = sorted(h.value for h in status.new)
+            if not new or not deliver:
+                return
+            cfg = {"state": self.state} if self.state is not None else {}
+            second = ops.make_odb(STORES[1 - src][1], dodb.path, **cfg)
+            for oid in sorted({new[i % len(new)] for i in deliver}):
+                second.add(sodb.oid_to_path(oid), sodb.fs, oid)
+            self.labels.add("xfer-raced-by-second-delivery")
+
+        res = transfer(sodb, dodb, want, shallow=shallow, hardlink=hardlink, validate_status=hook)
         if res.transferred:
             self.effective.add("xfer")
             self.labels.add("xfer" + ("-hardlink" if hardlink else "") + ("" if shallow else "-expanded"))
